@@ -178,6 +178,25 @@ def main(chk: core.Check, replay):
     n = replay_histories(chk, hists)
     chk.extra["histories"] = {"generated": len(hists), "observable_calls_replayed": n}
     chk.replayed += len(hists)
+    # ---- histories of API calls on live objects (SessionApi.tla): every observation against a fresh process
+    from .. import sessionapi
+    import random
+    cfg = tlc.make_cfg(constants={"MaxCalls": 3}, invariants=["C09_HistoryIndependent", "EmitHist"])
+    ra = tlc.run_tlc("SessionApi", cfg, workers=chk.nproc, timeout=600, constants_for_summary={"MaxCalls": 3})
+    api_hists = ra.records
+    ra.records = []
+    chk.add_tlc(ra)
+    if not api_hists:
+        raise core.MachineryFailure("SessionApi emitted no history")
+    api_hists = random.Random(chk.seed).sample(api_hists, min(60 if quick else 800, len(api_hists)))
+    ncalls, bad = sessionapi.replay(api_hists)
+    chk.replayed += len(api_hists)
+    chk.extra["api_histories"] = {"histories": len(api_hists), "observable_calls": ncalls, "mismatches": len(bad)}
+    for b in bad:
+        c = b["call"]
+        chk.violation(f"C09:api-history:{c['be']}:ru={c['ru']}:sch={c['sch']}", b,
+                      f"get_code({c['m']}, backend={c['be']}, remove_unused={c['ru']}, schemes={c['sch']}) after the calls "
+                      f"{[x['op'] + ':' + x['m'] for x in b['history'][:b['position']]]} differs from the same call in a fresh process")
     # ---- design sensitivity (thorough): the invariant fails when the schedule is free
     if not quick:
         consts = dict(CONSTS, NInter=1, FreeSchedule=True, EmitMod=0)
